@@ -9,7 +9,7 @@ open N2V N2V.Sched
 
 /-- `build b: r` ; `build c: r b` (files: 0 = the manifest, 1 = b, 2 = c). -/
 def g0 : Graph := Graph.mk 2 3
-  (fun b => if b = 0 then ⟨[], [], [1], false, []⟩ else ⟨[1], [], [2], false, []⟩)
+  (fun b => if b = 0 then ⟨[], [], [1], false, []⟩ else if b = 1 then ⟨[1], [], [2], false, []⟩ else ⟨[], [], [], true, []⟩)
   (fun f => if f = 1 then some 0 else if f = 2 then some 1 else none)
   (fun f => if f = 1 then [1] else [])
   (fun f => [97 + f.toUInt8])
